@@ -626,12 +626,14 @@ pub (crate) fn bid128_from_string(str: &str, rnd_mode: RoundingMode, pfpsf: &mut
     scale_high = 100000000000000000u64;
     if dec_expon < 0 {
         if dec_expon > -(MAX_FORMAT_DIGITS_128 as i32) {
+            // the carry becomes a 35th, sticky digit
             scale_high = 1000000000000000000u64;
             coeff_low  = (coeff_low << 3) + (coeff_low << 1);
             dec_expon -= 1;
-        }
-        if dec_expon == -(MAX_FORMAT_DIGITS_128 as i32) && coeff_high > 50000000000000000u64 {
-            carry = 0;
+        } else {
+            // all 34 digits are dropped by the final rounding, so a carry added here would round twice;
+            // the digits beyond the 34th only decide when the 34 digits are exactly half an ulp
+            carry = if set_inexact && coeff_high == 50000000000000000u64 && coeff_low == 0 { 1 } else { 0 };
         }
     }
 
